@@ -339,7 +339,9 @@ def fix_nodes(n):
 
 INPUTS = ['-', '(i 0)', '(i 5)',
           f'(l (p (s {symbol_value("a")}) (i 1)) (p (s {symbol_value("b")}) (cl 120)) (i 7))',
-          f'(p (s {symbol_value("x")}) (i 9))', '(cl 104 105)', '(p (i 1) (i -5))']
+          f'(p (s {symbol_value("x")}) (i 9))', '(cl 104 105)', '(p (i 1) (i -5))',
+          # identifiers that ARE in the input value but bound to a false / unit value: found, so the host must not be asked
+          f'(l (p (s {symbol_value("a")}) U) (p (s {symbol_value("x")}) F) (p (s {symbol_value("b")}) (i 2)))']
 
 
 def gen_program(rnd, depth):
@@ -432,6 +434,92 @@ def logic_shapes():
         yield f'and-if/{tn}', fix_nodes(_and(lit_int(5), _cond(lit_int(5), tk())))
         yield f'list-of/{tn}', fix_nodes(Node('clist', None, [_and(lit_int(5), tk()), _or(FALSE(), tk())], 'clist'))
         yield f'body/{tn}', fix_nodes(binop('<~', _nested(_and(INPUT(), tk())), lit_int(3)))
+
+
+def tester_shapes():
+    """every testing construct (`??`, `!!`, `?>`, `!>`, `&&`, `||`, `^^`, the test of an else-chain arm) applied, WITHOUT
+    parentheses wherever the language's table allows it, to a value written with an operator: a range, a pair, a space list, a
+    concatenation, arithmetic, a comparison, an access, prefix and suffix operators — true values of every composite type and
+    the false / unit results of operators. All constructs must classify the whole operand the same way; which operand a tester
+    sees is decided by the operator priorities, so this is also where a changed priority of a tester shows."""
+    def operands():
+        yield 'range', lambda: binop('..', lit_int(1), lit_int(2))
+        yield 'pair', lambda: Node('pair', None, [lit_int(1), lit_int(2)], 'pair')
+        yield 'pair-unit', lambda: Node('pair', None, [lit_sym('k'), UNIT()], 'pair')
+        yield 'slist', lambda: Node('slist', None, [lit_int(1), lit_int(2)], 'slist')
+        yield 'slist-false', lambda: Node('slist', None, [FALSE(), FALSE()], 'slist')
+        yield 'concat', lambda: binop('<>', lit_int(1), lit_int(2))
+        yield 'concat-text', lambda: binop('<>', lit_text('a'), lit_text(''))
+        yield 'add', lambda: binop('+', lit_int(1), lit_int(2))
+        yield 'add-undefined', lambda: binop('+', lit_int(1), lit_text('a'))        # unit unless the host answers
+        yield 'sub-zero', lambda: binop('-', lit_int(1), lit_int(1))               # the number 0 is true
+        yield 'lt-true', lambda: binop('<', lit_int(1), lit_int(2))
+        yield 'lt-false', lambda: binop('<', lit_int(2), lit_int(1))
+        yield 'eq-false', lambda: binop('==', lit_int(2), lit_int(1))
+        yield 'access-hit', lambda: binop('.', Node('slist', None, [lit_int(7), lit_int(8)], 'slist'), lit_int(0))
+        yield 'access-miss', lambda: binop('.', Node('slist', None, [lit_int(7), lit_int(8)], 'slist'), lit_int(5))
+        yield 'opposite', lambda: prefix('--', lit_int(3))
+        yield 'typeof', lambda: prefix('#', UNIT())
+        yield 'length', lambda: suffix('.|', Node('slist', None, [lit_int(7), lit_int(8)], 'slist'))
+        yield 'call', lambda: suffix('~~', _nested(FALSE()))
+        yield 'apply', lambda: binop('<~', _nested(INPUT()), UNIT())
+        yield 'partial', lambda: binop('~', _nested(INPUT()), lit_int(1))
+        yield 'xor', lambda: binop('^^', lit_int(1), UNIT())
+        yield 'and', lambda: _and(lit_int(1), UNIT())
+        yield 'or', lambda: _or(UNIT(), FALSE())
+        yield 'not', lambda: prefix('!!', UNIT())
+        yield 'tis', lambda: prefix('??', FALSE())
+    for on, ok in operands():
+        yield f'tis/{on}', fix_nodes(prefix('??', ok()))
+        yield f'not/{on}', fix_nodes(prefix('!!', ok()))
+        yield f'if/{on}', fix_nodes(_chain([_cond(ok(), lit_int(1))], lit_int(2)))
+        yield f'unless/{on}', fix_nodes(_chain([_cond(ok(), lit_int(1), False)], lit_int(2)))
+        yield f'and-left/{on}', fix_nodes(_and(ok(), lit_int(1)))
+        yield f'or-left/{on}', fix_nodes(_or(ok(), lit_int(1)))
+        yield f'and-right/{on}', fix_nodes(_and(lit_int(1), ok()))
+        yield f'or-right/{on}', fix_nodes(_or(UNIT(), ok()))
+        yield f'xor-left/{on}', fix_nodes(binop('^^', ok(), FALSE()))
+        yield f'xor-right/{on}', fix_nodes(binop('^^', FALSE(), ok()))
+        yield f'chain-mid/{on}', fix_nodes(_chain([_cond(FALSE(), lit_int(6)), _cond(ok(), lit_int(1))], lit_int(2)))
+        yield f'tis-tis/{on}', fix_nodes(prefix('??', prefix('??', ok())))
+        yield f'not-in-list/{on}', fix_nodes(Node('clist', None, [prefix('!!', ok()), prefix('??', ok())], 'clist'))
+
+
+def equality_shapes():
+    """`==` / `!=` between structured values of equal and of different shape (lists of different lengths, a list against its
+    prefix, nested lists, pairs, concatenations that flatten to the same / a longer / a shorter sequence, text, ranges), each
+    placed where earlier results are pending around it: as a later item of a list, as right operand of an arithmetic operator,
+    inside a pair, as the test of a conditional, as right operand of `&&`. Structural equality walks both values with the
+    operand stack as its work list and must leave exactly one boolean, whatever it found and wherever it stopped."""
+    def sl(*xs): return Node('slist', None, [lit_int(x) if isinstance(x, int) else x for x in xs], 'slist')
+    def vals():
+        yield 'l12', lambda: sl(1, 2)
+        yield 'l123', lambda: sl(1, 2, 3)
+        yield 'l13', lambda: sl(1, 3)
+        yield 'l1234', lambda: sl(1, 2, 3, 4)
+        yield 'nested', lambda: sl(sl(1, 2), 3)
+        yield 'nested-long', lambda: sl(sl(1, 2, 3), 3)
+        yield 'pair', lambda: Node('pair', None, [lit_int(1), lit_int(2)], 'pair')
+        yield 'pair-list', lambda: Node('pair', None, [lit_int(1), sl(2, 3)], 'pair')
+        yield 'cat12', lambda: binop('<>', lit_int(1), lit_int(2))
+        yield 'cat-list', lambda: binop('<>', sl(1, 2), lit_int(3))
+        yield 'cat-nested', lambda: binop('<>', sl(sl(1, 2)), lit_int(3)) if False else binop('<>', sl(sl(1, 2), 9), lit_int(3))
+        yield 'text', lambda: lit_text('ab')
+        yield 'range', lambda: binop('..', lit_int(1), lit_int(3))
+        yield 'int', lambda: lit_int(1)
+    vs = list(vals())
+    k = 0
+    for an, ak in vs:
+        for bn, bk in vs:
+            k += 1
+            op = '==' if k % 2 else '!='
+            eq = lambda: binop(op, ak(), bk())
+            yield f'eq/alone/{an}/{bn}', fix_nodes(eq())
+            yield f'eq/later-item/{an}/{bn}', fix_nodes(Node('clist', None, [lit_int(5), eq()], 'clist'))
+            yield f'eq/both-sides/{an}/{bn}', fix_nodes(Node('clist', None, [lit_int(5), eq(), lit_int(6)], 'clist'))
+            yield f'eq/right-of-add/{an}/{bn}', fix_nodes(binop('+', lit_int(5), _chain([_cond(eq(), lit_int(1))], lit_int(2))))
+            yield f'eq/in-pair/{an}/{bn}', fix_nodes(Node('pair', None, [lit_int(5), eq()], 'pair'))
+            yield f'eq/and-right/{an}/{bn}', fix_nodes(Node('clist', None, [lit_int(7), _and(lit_int(5), eq())], 'clist'))
 
 
 def loop_shapes():
